@@ -121,6 +121,7 @@ def gen_all(seed, tier, round_no=0):
 
 class C05(flow.Spec):
     pid = "C05"
+    case_timeout = 900
     harness = dict(name="c05", sources=["c05.cpp"])
     extra_lean_sources = ("TlxVerif/Model/C09LoserTree.lean", "TlxVerif/Model/C05Tables.lean", "TlxVerif/Proofs/C09Path.lean",
                           "TlxVerif/Proofs/C09Tournament.lean", "TlxVerif/Proofs/C09Orders.lean",
@@ -156,7 +157,8 @@ class C05(flow.Spec):
         return gen_all(seed, tier, round_no)
 
     def viol_class(self, message):
-        return message.split("[")[0][:60].rstrip("0123456789:,=- ") if "[" in message else message[:60]
+        import re
+        return re.sub(r"[0-9]+(:[0-9]+:[0-9]+)?", "N", message.split("[")[0])[:70]
 
     def nontrivial(self, case, answers):
         ops = [l.split() for l in case[1:]]
